@@ -11,6 +11,10 @@ from ..report import Out
 from .. import meshspace as ms
 
 ID = 'C20'
+# sub-checks added after the seeded-change waves (DESIGN.md sections 5 and 6)
+EXTENSIONS = [
+    'one NonlinearForm object on two geometries; w.h / w.n integrands; complex-valued nonlinear form; elemental vs assemble; finite-element trailing layouts for cell counts 1, 2, 3, 4, 9; complex tensors through the NumPy helpers',
+]
 LEVEL = 'exploration'
 TECHNIQUE = "exhaustive enumeration of integer tensor grids for the helper algebra; grammar x meshes x linearisation points for the autodiff form, vs hand-linearised forms and central differences"
 LEVEL_TEXT = ("Helpers (NumPy and JAX variants): every helper is evaluated on EVERY integer tensor with entries in {-1,0,1,2} (2x2: "
